@@ -18,6 +18,7 @@ pub mod c14;
 pub mod c15;
 pub mod c18;
 pub mod c19;
+pub mod c20;
 
 use crate::runner::{Report, Tier};
 use serde_json::Value;
@@ -50,5 +51,6 @@ pub fn registry() -> Vec<(&'static str, CheckFn)> {
         ("C15", c15::run as CheckFn),
         ("C18", c18::run as CheckFn),
         ("C19", c19::run as CheckFn),
+        ("C20", c20::run as CheckFn),
     ]
 }
